@@ -105,7 +105,8 @@ ASSUMPTIONS = [
     'the entity body needed for qop=auth-int is not available to the tool (finding F21)',
 ]
 RULE = ('per generated configuration (tool x realm x accept_charset x store kind x 2-5 users over ASCII / Latin-1 / '
-        'non-BMP / colon / quote / NFD / empty-password): headers produced by the independent client for every user, '
+        'non-BMP / colon / quote / NFD / empty-password / compatibility twins on which NFC, NFKC, NFD, casefold and strip '
+        'differ, stored and sent): headers produced by the independent client for every user, '
         'qop x algorithm x method x nonce age, then one corruption drawn from a fixed catalogue (semantic: computed with '
         'wrong inputs; tamper: field changed after signing; syntactic: scheme, quoting, base64, white space, missing / '
         'extra / empty fields; wire charset).  Non-trivial = an Authorization header was sent; distinct = distinct '
@@ -246,9 +247,17 @@ class World:
         c = {'hooks.before_handler.c19': Hook(self.see_header, priority=0),
              'hooks.before_error_response.c19': Hook(self.see_error, priority=0)}
         users = {u: p for u, p in cfg['users']}
+        probe = self.probe
         if cfg['tool'] == 'basic':
+            inner_cp = self.auth_basic.checkpassword_dict(users)
+
+            def checkpassword(realm, username, password):
+                # the real checkpassword_dict decides; the probe only records in which form the credentials arrive
+                probe.setdefault('cp', []).append([realm, username, password])
+                return inner_cp(realm, username, password)
+
             c.update({'tools.auth_basic.on': True, 'tools.auth_basic.realm': cfg['realm'],
-                      'tools.auth_basic.checkpassword': self.auth_basic.checkpassword_dict(users),
+                      'tools.auth_basic.checkpassword': checkpassword,
                       'tools.auth_basic.accept_charset': cfg['charset']})
         else:
             if cfg['store'] == 'plain':
@@ -258,6 +267,12 @@ class World:
             else:
                 get_ha1 = self.auth_digest.get_ha1_dict(
                     {u: cl.ha1_of(u, cfg['realm'], p) for u, p in cfg['users']})
+            inner_ha1 = get_ha1
+
+            def get_ha1(realm, username):
+                probe.setdefault('ha1', []).append([realm, username])
+                return inner_ha1(realm, username)
+
             c.update({'tools.auth_digest.on': True, 'tools.auth_digest.realm': cfg['realm'],
                       'tools.auth_digest.get_ha1': get_ha1, 'tools.auth_digest.key': cfg['key'],
                       'tools.auth_digest.accept_charset': cfg['charset']})
@@ -298,7 +313,7 @@ class World:
         return {'status': int(out['status'].split(' ')[0]), 'challenge': chal,
                 'ran': bool(self.probe.get('ran')), 'login': self.probe.get('login'),
                 'hook': bool(self.probe.get('hook')), 'hdr': self.probe.get('hdr'),
-                'exc': self.probe.get('exc')}
+                'exc': self.probe.get('exc'), 'cp': self.probe.get('cp') or [], 'ha1': self.probe.get('ha1') or []}
 
     def issue(self, cfg, at):
         """Ask the real server for a challenge at logical time `at`; returns the nonce it hands out (or None)."""
@@ -356,6 +371,16 @@ def oracle(case, obs):
         edge = [v for v in vs if v['digest_ok'] and v['genuine'] and v['age'] == cl.LIFETIME]
         prim = cl.rfc2617_verify(case['cands'][0], case['method'], case['body'].encode('latin-1'), cfg,
                                  case['genuine'], now) if case['cands'] else None
+        for realm_arg, user_arg in obs.get('ha1', []):
+            if realm_arg != cfg['realm']:
+                bad.append(('the store was asked for realm %r, the configured realm is %r: %r [%s]'
+                            % (realm_arg, cfg['realm'], case['header'], kind), 'store_lookup_realm:' + kind))
+            elif case['wellformed'] is True and case['cands'] and \
+                    user_arg not in [c.get('username') for c in case['cands']]:
+                bad.append(('the store was asked for user %r, the header names %r (user names are compared as sent, '
+                            'without any normalisation or folding): %r [%s]'
+                            % (user_arg, case['cands'][0].get('username'), case['header'], kind),
+                            'store_lookup_user:' + kind))
         if obs['ran']:
             if not any(v['user'] == obs['login'] for v in good + edge):
                 bad.append(('handler ran with login=%r although the credentials do not verify: %r [%s]'
@@ -389,6 +414,16 @@ def oracle(case, obs):
         return bad
     # ---- basic
     logins = cl.basic_ok_logins(case['raws'], cfg)
+    readings = cl.basic_readings(case['raws'])
+    for realm_arg, user_arg, pw_arg in obs.get('cp', []):
+        if realm_arg != cfg['realm']:
+            bad.append(('checkpassword was called with realm %r, configured %r' % (realm_arg, cfg['realm']),
+                        'basic_checkpassword_realm'))
+        elif case['raws'] and (user_arg, pw_arg) not in readings:
+            bad.append(('credentials sent as %r reached the password check as user=%r password=%r, which is not '
+                        'the NFC form of any accepted decoding cut at the first colon (expected one of %r): %r [%s]'
+                        % (case.get('sent'), user_arg, pw_arg, sorted(readings)[:3], case['header'], kind),
+                        'basic_normal_form:' + kind.split(':')[0]))
     if obs['ran']:
         if obs['login'] not in logins:
             bad.append(('handler ran with login=%r although the credentials do not verify: %r [%s]'
@@ -415,6 +450,10 @@ def run_one(world, case):
     return obs
 
 
+def idx_first_of_cfg(case, cases, i):
+    return i == 0 or cases[i - 1]['cfg'] is not case['cfg']
+
+
 def check_cases(ctx, world, cases, compare=True):
     """Run cases on the real code, apply the oracle, compare with the model."""
     lines, idx = [], []
@@ -439,6 +478,23 @@ def check_cases(ctx, world, cases, compare=True):
                 ctx.count('nonce_age:' + ('<0' if a < 0 else '0-598' if a < 599 else str(a) if a <= 601 else '>601'))
         if case['header'] is not None:
             ctx.count('text:' + cl.text_class(case['header']))
+        sent = case.get('sent') if cfg['tool'] == 'basic' else \
+            ((case.get('cands') or [{}])[0].get('username') if case.get('cands') else None)
+        if sent:
+            import unicodedata as _u
+            if _u.normalize('NFC', sent) != _u.normalize('NFKC', sent):
+                ctx.count('unicode:%s:sent NFC!=NFKC' % cfg['tool'])
+            if _u.normalize('NFC', sent) != sent:
+                ctx.count('unicode:%s:sent not NFC' % cfg['tool'])
+            if sent.casefold() != sent.lower() or sent.strip() != sent:
+                ctx.count('unicode:%s:sent casefold/strip-sensitive' % cfg['tool'])
+        stored = ''.join(u + p for u, p in cfg['users'])
+        if idx_first_of_cfg(case, cases, i):
+            import unicodedata as _u
+            if _u.normalize('NFC', stored) != _u.normalize('NFKC', stored):
+                ctx.count('unicode:config stores NFC!=NFKC credentials')
+            if _u.normalize('NFC', stored) != stored:
+                ctx.count('unicode:config stores non-NFC credentials')
         for what, sig in oracle(case, obs):
             ctx.oracle_fail(case, what, sig)
         if compare and not case.get('no_model'):
